@@ -1,19 +1,23 @@
 (** * C16 — a clone is observationally identical to the original.  Statements only.
-    The model states are values: equal states give equal results for every later operation
-    sequence, and operations on one value cannot affect another.  That the *implementation's*
-    clone shares nothing with the original is carried by the correspondence run (clone, drop the
-    original or keep it and compare, continue) — see DESIGN.md §5 C16. *)
+    The layer-L model states are values: equal states give equal results for every later operation
+    sequence, and operations on one value cannot affect another.  That a clone shares nothing with
+    the original is proved at the pointer level (layer H: clone and original are two lists of one
+    heap) for RawLRU and SegmentedCache, and carried for all four types by the correspondence run
+    (clone, compare every accessor and the estimator key by key, drop the original, continue). *)
+From Coq Require Import List.
+Import ListNotations.
 From VF Require Import Base Iter Enc Lru LruStep Slru CacheStep Tiny WTiny TinyStep
-  BaseFacts LruFacts Counts SlruFacts TinyFacts WTinyFacts Run C01Proofs.
+  BaseFacts LruFacts Counts SlruFacts TinyFacts WTinyFacts Run C01Proofs
+  Heap HeapIterDef HeapOps HeapRun HeapMulti HeapClone HeapSlruDef HeapSlru.
 
 (** RawLRU: re-inserting the entries from least to most recent into an empty list of the same
     capacity rebuilds exactly the same list — for every reachable state *)
 Theorem C16_lru_clone_identical : forall (c : nat) (cb : bool) (ops : list lop),
-  let s := lrun (lru_new c cb) ops in clone s = s.
+  let s := C01Proofs.lrun (lru_new c cb) ops in clone s = s.
 Proof. intros. apply clone_id. apply lrun_inv. split; cbn; [constructor|lia]. Qed.
 
 Theorem C16_lru_same_future : forall s (ops : list lop),
-  lru_inv s -> lrun (clone s) ops = lrun s ops.
+  lru_inv s -> C01Proofs.lrun (clone s) ops = C01Proofs.lrun s ops.
 Proof. intros s ops H. now rewrite clone_id. Qed.
 
 Theorem C16_slru_clone_identical : forall s, slru_inv s -> sclone s = s.
@@ -29,8 +33,31 @@ Proof. exact wclone_id. Qed.
 Theorem C16_tiny_clone_identical : forall t, tstep t [91] = Some (t, []).
 Proof. reflexivity. Qed.
 
+(** ** independence, at the pointer level: the clone of a RawLRU is built in the same heap as the original
+    ([h_clone]); then any history on the clone returns what the original would have returned, any history on the
+    original afterwards returns what it would have returned had no clone existed, and after the clone is dropped the
+    original alone owns the heap *)
+Theorem C16_heap_clone_independent : forall h q s os1 os2,
+  R h q s -> (length (items s) <= cap s)%nat ->
+  exists h1 q1, h_clone h q = HOk (h1, q1) /\
+  exists h2 q1', hrun h1 q1 os1 = HOk (h2, q1', snd (HeapRun.lrun s os1)) /\
+  exists h3 q', hrun h2 q os2 = HOk (h3, q', snd (HeapRun.lrun s os2)) /\
+  exists h4, h_drop h3 q1' = HOk h4 /\ R h4 q' (fst (HeapRun.lrun s os2)).
+Proof. exact clone_independent. Qed.
+
+(** SegmentedCache: after any history on the clone the original is the same abstract cache on the same nodes, next
+    to the clone's two lists *)
+Theorem C16_heap_slru_clone_independent : forall Fx h s ls os,
+  RS Fx h s ls -> slru_inv ls ->
+  exists h1 s1, hs_clone h s = HOk (h1, s1) /\
+  exists h2 s1' ls1 outs, hs_run h1 s1 os = HOk (h2, s1', outs) /\ ls_run ls os = Ok (ls1, outs) /\
+  exists la' lb', RS ((hprob s1', la') :: (hprot s1', lb') :: Fx) h2 s ls.
+Proof. exact slru_clone_independent. Qed.
+
 Print Assumptions C16_lru_clone_identical.
 Print Assumptions C16_lru_same_future.
 Print Assumptions C16_slru_clone_identical.
 Print Assumptions C16_wtiny_clone_identical.
 Print Assumptions C16_tiny_clone_identical.
+Print Assumptions C16_heap_clone_independent.
+Print Assumptions C16_heap_slru_clone_independent.
